@@ -4,6 +4,7 @@ import (
 	"fmt"
 
 	"github.com/osteele/liquid/parser"
+	"github.com/osteele/liquid/verifhook"
 )
 
 // Compile parses a source template. It returns an AST root, that can be evaluated.
@@ -17,6 +18,7 @@ func (c Config) Compile(source string, loc parser.SourceLoc) (Node, parser.Error
 
 // nolint: gocyclo
 func (c Config) compileNode(n parser.ASTNode) (Node, parser.Error) {
+	verifhook.Step(verifhook.SiteCompileNode)
 	switch n := n.(type) {
 	case *parser.ASTBlock:
 		body, err := c.compileNodes(n.Body)
